@@ -22,6 +22,7 @@ a != b                  bin "!=" a b
 f(a, b)                 call f [a, b]
 &Session{f: e, …}       newSession [("f", e), …]
 fmt.Errorf("…", err), errors.New("…")   mkErr   (the message is dropped; the arguments must be identifiers or literals)
+map[K]V, []T, *T        typ "<source text>"   (a type as an argument: `make(map[string]interface{})`)
 anything else           unk "<source text>"
 
 a, b := e1, e2          define ["a", "b"] [e1, e2]      ("_" is the blank identifier)
@@ -33,7 +34,9 @@ defer x.Unlock()        deferUnlock x "Unlock"
 if init; c { … } else { … }     ite [init] c […] […]
 return e1, e2           ret [e1, e2]
 go func() { … }()       go […]
-anything else           unk "<source text>"     (for, range, switch, select, labels, goto, inc/dec, op-assign, …)
+for init; c; post { … } forCond k [init] c [post] […]   (also `for c { … }`; k = ordinal of the loop in the function)
+break                   brk                      i++  i--     incDec i "++"
+anything else           unk "<source text>"     (range, `for {}`, switch, select, labels, goto, continue, op-assign, …)
 ```
 -/
 namespace Ir
@@ -54,6 +57,7 @@ inductive Expr where
   | call (f : Expr) (args : List Expr)
   | newSession (fields : List (String × Expr))
   | mkErr
+  | typ (text : String)
   | unk (text : String)
 deriving Repr, Inhabited
 
@@ -68,6 +72,9 @@ inductive Stmt where
   | ite (init : List Stmt) (c : Expr) (t e : List Stmt)
   | ret (es : List Expr)
   | go (body : List Stmt)
+  | forCond (id : Nat) (init : List Stmt) (c : Expr) (post : List Stmt) (body : List Stmt)
+  | brk
+  | incDec (x : Expr) (op : String)
   | unk (text : String)
 deriving Repr, Inhabited
 
